@@ -268,6 +268,16 @@ class Interp:
         """Does store component a cover load component b?  True / False / None (may)."""
         if a == ALL or b == ALL:
             return True
+        if isinstance(a, tuple) and a and a[0] == "slice" and isinstance(b, Aff):
+            # does the stored slice lo:hi contain the loaded position?
+            lo, hi = a[1], a[2]
+            inside_lo = True if lo is None else (st.facts.decide(cmp_cond(">=", b, lo)) if isinstance(lo, Aff) else None)
+            inside_hi = True if hi is None else (st.facts.decide(cmp_cond("<", b, hi)) if isinstance(hi, Aff) and not (hi.is_const() and hi.c < 0) else None)
+            if inside_lo is False or inside_hi is False:
+                return False
+            if inside_lo is True and inside_hi is True:
+                return True
+            return None
         if isinstance(a, Aff) and isinstance(b, Aff):
             d = a - b
             if d.is_const():
@@ -305,6 +315,9 @@ class Interp:
                 return self.fresh("unk")
             # covered
             free = [idx[k] for k in range(n) if s.idx[k] == ALL or (isinstance(s.idx[k], tuple) and s.idx[k][:1] == ("slice",))]
+            free_kind = [("all" if s.idx[k] == ALL else "slice") for k in range(n) if s.idx[k] == ALL or (isinstance(s.idx[k], tuple) and s.idx[k][:1] == ("slice",))]
+            free_lo = [(s.idx[k][1] if isinstance(s.idx[k], tuple) and isinstance(s.idx[k][1], Aff) else ZERO) for k in range(n)
+                       if s.idx[k] == ALL or (isinstance(s.idx[k], tuple) and s.idx[k][:1] == ("slice",))]
             rest = tuple(idx[len(s.idx) :])
             v = s.value
             if isinstance(v, Aff):
@@ -319,11 +332,16 @@ class Interp:
                 fi = 0
                 for c in v.idx:
                     if c == ALL and fi < len(free):
-                        new_idx.append(free[fi])
+                        # position relative to the start of the stored region
+                        new_idx.append(free[fi] - free_lo[fi] if (free_kind[fi] == "slice" and isinstance(free[fi], Aff)) else free[fi])
                         fi += 1
                     else:
                         new_idx.append(c)
-                new_idx.extend(free[fi:])
+                # leftover dimensions of the stored region: a full-axis (:) dimension addresses the same position of the value; a sliced
+                # leading dimension that the (lower-rank) value does not have is a broadcast dimension (every row of the slice gets the value)
+                for k2 in range(fi, len(free)):
+                    if free_kind[k2] == "all":
+                        new_idx.append(free[k2])
                 new_idx.extend(rest)
                 return self.load_at(st, i, v.root, tuple(new_idx))
             return self.fresh("unk")
